@@ -8,6 +8,7 @@ import TwProofs.Lemmas.TextVars
 import TwProofs.Lemmas.TextDot
 import TwProofs.Lemmas.TextIndex
 import TwProofs.Lemmas.TextIdxDot
+import TwProofs.Lemmas.TextAround
 
 namespace Tw.C12
 open Tw
@@ -356,6 +357,148 @@ example : evaluateStringPure [] (b "{{ users[1].name }}")
   have hs : idxDotSrc [32] (b "users") [] (b "1") [] (b "name") [32] = b "{{ users[1].name }}" := by decide
   rw [hs] at this
   exact this
+
+/-- **`Hello {{ user.name }}!`: a field of the data between two runs of text, from the source bytes on**: for
+    every data map with distinct keys, every entry `(k, g)` whose value converts to an object with the key
+    `f` (as written or with its first letter in upper case), every two runs of text `pre` and `post` (plain
+    pieces and escapes, as in C05) and any white space inside the braces, the template
+    `pre {{ k.f }} post` renders the text of `pre`, the printed converted field, the text of `post`.
+    (`text_code_text`: lexer, parser and evaluator composed once for every one-statement block; the
+    instance for `k.f` is `dot_one_stmt`.) -/
+theorem field_value_prints_in_text (custom : List ((VType × Bytes) × Nat)) (data : List (Bytes × GoVal)) (env : Env) (hd : KeysDistinct data)
+    (h : envFromMap data = .ok env) (k : Bytes) (g : GoVal) (hm : (k, g) ∈ data) (hk : isName k) (f : Bytes) (hf : isName f)
+    (g1 g2 : Bytes) (hg1 : allWs g1) (hg2 : allWs g2) (kvs : List (Bytes × Val)) (hobj : nativeToObject g = some (.obj kvs))
+    (v : Val) (hv : mapGet kvs f = some v ∨ (mapGet kvs f = none ∧ mapGet kvs (toUpper (f.take 1) ++ f.drop 1) = some v))
+    (pre post : List Seg) (hitems : GItemsOK [.text pre, .code (dotCode g1 k f g2), .text post]) :
+    evaluateStringPure custom (segsSrc pre ++ (dotSrc g1 k f g2 ++ segsSrc post)) data = .ok (segsLit pre ++ v.toStr ++ segsLit post) := by
+  obtain ⟨v0, hv0, hget⟩ := data_is_visible data env hd h k g hm
+  have hv0' : v0 = .obj kvs := by rw [hobj] at hv0; cases hv0; rfl
+  subst hv0'
+  have hfne : f.isEmpty = false := by
+    obtain ⟨⟨c, cv, hcv, _⟩, _, _⟩ := hf
+    rw [hcv]; rfl
+  have hidx : ∀ line, objIndex kvs f line = .ok v := by
+    intro line
+    unfold objIndex
+    rcases hv with hv | ⟨hn, hv⟩
+    · rw [hv]
+    · rw [hn]
+      simp only [hfne, Bool.false_eq_true, if_false, hv]
+  have hone : OneStmt (dotCode g1 k f g2) env { custom := custom } v.toStr := by
+    refine ⟨dotCode_ok g1 k f g2 hg1 hg2 hk hf, by simp [dotCode, dotKeys], ?_, ?_, ?_⟩
+    · intro g toks tn rest hkeys hcl
+      have hk' : toks.map key = dotKeys k f := hkeys
+      match toks, hk' with
+      | [], hk' => simp [dotKeys] at hk'
+      | [_], hk' => simp [dotKeys] at hk'
+      | [_, _], hk' => simp [dotKeys] at hk'
+      | [_, _, _], hk' => simp [dotKeys] at hk'
+      | [_, _, _, _], hk' => simp [dotKeys] at hk'
+      | _ :: _ :: _ :: _ :: _ :: _ :: _, hk' => simp [dotKeys] at hk'
+      | [t1, t2, t3, t4, t5], hk' =>
+        simp only [dotKeys, List.map_cons, List.map_nil, List.cons.injEq, and_true] at hk'
+        obtain ⟨hk1, hk2, hk3, hk4, hk5⟩ := hk'
+        have ty1 : t1.ty = .LBRACES := congrArg Prod.fst hk1
+        have ty2 : t2.ty = .IDENT := congrArg Prod.fst hk2
+        have lit2 : t2.lit = k := congrArg Prod.snd hk2
+        have ty3 : t3.ty = .DOT := congrArg Prod.fst hk3
+        have ty4 : t4.ty = .IDENT := congrArg Prod.fst hk4
+        have lit4 : t4.lit = f := congrArg Prod.snd hk4
+        have ty5 : t5.ty = .RBRACES := congrArg Prod.fst hk5
+        refine ⟨.expr t4 (.dot t3 (.ident t2 t2.lit) t4.lit), t5, ?_, by rw [ty5]; decide, rfl, ?_⟩
+        · have := parse_dot_stmt (g + 16) t1 t2 t3 t4 t5 (tn :: rest) ty1 ty2 ty3 ty4 ty5 hcl
+          simpa [dotCode, dotKeys] using this
+        · intro fu
+          rw [show fu + 8 = (fu + 5) + 1 + 1 + 1 from by omega, evalStmt_succ]
+          simp only [stmtBody, calleesAt_expr]
+          simp only [evalExpr, lit2, lit4, hget, hidx, Res.bind_ok]
+    · intro toks hkeys
+      have hk' : toks.map key = dotKeys k f := hkeys
+      cases toks with
+      | nil => simp [dotKeys] at hk'
+      | cons t r =>
+        have : key t = (.LBRACES, [123, 123]) := by simpa [dotKeys] using (List.cons.inj hk').1
+        have ty : t.ty = .LBRACES := congrArg Prod.fst this
+        exact ⟨t, r, rfl, by rw [ty]; decide, by rw [ty]; decide⟩
+    · intro x hx
+      simp only [dotCode, dotKeys, List.mem_cons, List.mem_nil_iff, or_false] at hx
+      rcases hx with rfl | rfl | rfl | rfl | rfl <;> simp
+  exact text_code_text custom pre post (dotCode g1 k f g2) data env h v.toStr hone hitems
+
+example : evaluateStringPure [] (b "Hello {{ user.name }}!")
+    [(b "user", .struct [(b "Name", true, .str (b "Ann")), (b "age", false, .int 3)])] = .ok (b "Hello Ann!") := by
+  have hitems : GItemsOK [.text [.plain (b "Hello ")], .code (dotCode [32] (b "user") (b "name") [32]), .text [.plain (b "!")]] :=
+    ⟨by decide, by decide, by simp only [afterRunG]; decide, dotCode_ok [32] (b "user") (b "name") [32] (by decide) (by decide) (by decide) (by decide),
+      by decide, by decide, trivial, trivial⟩
+  have := field_value_prints_in_text [] [(b "user", .struct [(b "Name", true, .str (b "Ann")), (b "age", false, .int 3)])]
+    [[(b "user", .obj [(b "Name", .str (b "Ann"))])]] (by simp [KeysDistinct]) (by rfl) (b "user")
+    (.struct [(b "Name", true, .str (b "Ann")), (b "age", false, .int 3)]) (by simp) (by decide) (b "name") (by decide)
+    [32] [32] (by decide) (by decide) [(b "Name", .str (b "Ann"))] (by rfl) (.str (b "Ann")) (Or.inr ⟨by rfl, by rfl⟩)
+    [.plain (b "Hello ")] [.plain (b "!")] hitems
+  have hs : segsSrc [.plain (b "Hello ")] ++ (dotSrc [32] (b "user") (b "name") [32] ++ segsSrc [.plain (b "!")]) = b "Hello {{ user.name }}!" := by decide
+  rw [hs] at this
+  exact this
+
+/-- **`First: {{ names[0] }}.`: an element of a slice of the data between two runs of text, from the source
+    bytes on** (`text_code_text` with the instance for `k[d]`) -/
+theorem index_value_prints_in_text (custom : List ((VType × Bytes) × Nat)) (data : List (Bytes × GoVal)) (env : Env) (hd : KeysDistinct data)
+    (h : envFromMap data = .ok env) (k : Bytes) (g : GoVal) (hm : (k, g) ∈ data) (hk : isName k) (d : Bytes) (hdg : isDigits d)
+    (hb : digitsToNat d < 2 ^ 63) (g1 g2 g3 g4 : Bytes) (hg1 : allWs g1) (hg2 : allWs g2) (hg3 : allWs g3) (hg4 : allWs g4)
+    (xs : List Val) (harr : nativeToObject g = some (.arr xs))
+    (pre post : List Seg) (hitems : GItemsOK [.text pre, .code (idxCode g1 k g3 d g4 g2), .text post]) :
+    evaluateStringPure custom (segsSrc pre ++ (idxSrc g1 k g3 d g4 g2 ++ segsSrc post)) data =
+      .ok (segsLit pre ++ (xs.getD (digitsToNat d) .nil).toStr ++ segsLit post) := by
+  obtain ⟨v0, hv0, hget⟩ := data_is_visible data env hd h k g hm
+  have hv0' : v0 = .arr xs := by rw [harr] at hv0; cases hv0; rfl
+  subst hv0'
+  have hidx : arrIndex xs (Int64.ofNat (digitsToNat d)) = xs.getD (digitsToNat d) .nil := by
+    by_cases hl : digitsToNat d < xs.length
+    · exact arrIndex_in xs _ hl hb
+    · rw [arrIndex_out xs _ (by omega) hb]
+      simp [List.getD, List.getElem?_eq_none (show xs.length ≤ digitsToNat d by omega)]
+  have hone : OneStmt (idxCode g1 k g3 d g4 g2) env { custom := custom } (xs.getD (digitsToNat d) .nil).toStr := by
+    refine ⟨idxCode_ok g1 k g3 d g4 g2 hg1 hg2 hg3 hg4 hk hdg, by simp [idxCode, idxKeys], ?_, ?_, ?_⟩
+    · intro g toks tn rest hkeys hcl
+      have hk' : toks.map key = idxKeys k d := hkeys
+      match toks, hk' with
+      | [], hk' => simp [idxKeys] at hk'
+      | [_], hk' => simp [idxKeys] at hk'
+      | [_, _], hk' => simp [idxKeys] at hk'
+      | [_, _, _], hk' => simp [idxKeys] at hk'
+      | [_, _, _, _], hk' => simp [idxKeys] at hk'
+      | [_, _, _, _, _], hk' => simp [idxKeys] at hk'
+      | _ :: _ :: _ :: _ :: _ :: _ :: _ :: _, hk' => simp [idxKeys] at hk'
+      | [t1, t2, t3, t4, t5, t6], hk' =>
+        simp only [idxKeys, List.map_cons, List.map_nil, List.cons.injEq, and_true] at hk'
+        obtain ⟨hk1, hk2, hk3, hk4, hk5, hk6⟩ := hk'
+        have ty1 : t1.ty = .LBRACES := congrArg Prod.fst hk1
+        have ty2 : t2.ty = .IDENT := congrArg Prod.fst hk2
+        have lit2 : t2.lit = k := congrArg Prod.snd hk2
+        have ty3 : t3.ty = .LBRACKET := congrArg Prod.fst hk3
+        have ty4 : t4.ty = .INT := congrArg Prod.fst hk4
+        have lit4 : t4.lit = d := congrArg Prod.snd hk4
+        have ty5 : t5.ty = .RBRACKET := congrArg Prod.fst hk5
+        have ty6 : t6.ty = .RBRACES := congrArg Prod.fst hk6
+        refine ⟨.expr t5 (.index t3 (.ident t2 t2.lit) (.int t4 (Int64.ofNat (digitsToNat d)))), t6, ?_, by rw [ty6]; decide, rfl, ?_⟩
+        · have := parse_index_stmt (g + 18) t1 t2 t3 t4 t5 t6 (tn :: rest) _ ty1 ty2 ty3 ty4 ty5 ty6
+            (by rw [lit4]; exact parseInt64_digits d hdg (by omega)) hcl
+          simpa [idxCode, idxKeys] using this
+        · intro fu
+          rw [show fu + 8 = (fu + 5) + 1 + 1 + 1 from by omega, evalStmt_succ]
+          simp only [stmtBody, calleesAt_expr]
+          simp only [evalExpr, lit2, hget, hidx, Res.bind_ok]
+    · intro toks hkeys
+      have hk' : toks.map key = idxKeys k d := hkeys
+      cases toks with
+      | nil => simp [idxKeys] at hk'
+      | cons t r =>
+        have : key t = (.LBRACES, [123, 123]) := by simpa [idxKeys] using (List.cons.inj hk').1
+        have ty : t.ty = .LBRACES := congrArg Prod.fst this
+        exact ⟨t, r, rfl, by rw [ty]; decide, by rw [ty]; decide⟩
+    · intro x hx
+      simp only [idxCode, idxKeys, List.mem_cons, List.mem_nil_iff, or_false] at hx
+      rcases hx with rfl | rfl | rfl | rfl | rfl | rfl <;> simp
+  exact text_code_text custom pre post (idxCode g1 k g3 d g4 g2) data env h _ hone hitems
 
 /-! non-vacuity -/
 
